@@ -81,6 +81,11 @@ func selected(o *Oblig, pu PropUnit, prop string) bool {
 			if hasTag(o, prop) {
 				return true
 			}
+		case "tag:section", "tag:ensures", "tag:callsite":
+			// tagged obligations of one kind only (a unit run in two modes)
+			if hasTag(o, prop) && o.Kind == strings.TrimPrefix(s, "tag:") {
+				return true
+			}
 		case "shared":
 			if !safetyKinds[o.Kind] && len(o.Tags) == 0 {
 				return true
@@ -178,8 +183,9 @@ func cmdCheck(args []string) {
 			keys = []string{pu.Unit}
 		}
 		for _, k := range keys {
-			if !seenU[k] {
-				seenU[k] = true
+			mk := fmt.Sprintf("%s|%v|%v", k, pu.Lock, pu.Seq)
+			if !seenU[mk] {
+				seenU[mk] = true
 				urefs = append(urefs, uref{k, pu})
 			}
 		}
@@ -188,6 +194,17 @@ func cmdCheck(args []string) {
 	puOf := map[*Unit]PropUnit{}
 	for _, ur := range urefs {
 		u := verifyUnit(env, ur.key, env.funcs[ur.key], UnitOpts{LockMode: ur.pu.Lock, Sequential: ur.pu.Seq})
+		if seenU[ur.key+"|unit"] {
+			// the same function in a second mode: keep obligation names apart
+			sfx := "[seq]"
+			if !ur.pu.Seq {
+				sfx = "[interference]"
+			}
+			for _, o := range u.Obligs {
+				o.Name = strings.Replace(o.Name, ur.key+":", ur.key+sfx+":", 1)
+			}
+		}
+		seenU[ur.key+"|unit"] = true
 		units = append(units, u)
 		puOf[u] = ur.pu
 	}
@@ -219,6 +236,7 @@ func cmdCheck(args []string) {
 	}
 	total, discharged := 0, 0
 	var failed []*Oblig
+	var assumedUnproved []string
 	var vacuous []*Oblig
 	var slowest []sample
 	var samples []sample
@@ -248,6 +266,10 @@ func cmdCheck(args []string) {
 				continue
 			}
 			if !selected(o, puOf[u], *prop) {
+				if o.Result != "unsat" {
+					// not this property's obligation, but later obligations of the unit assume it
+					assumedUnproved = append(assumedUnproved, o.Name)
+				}
 				continue
 			}
 			total++
@@ -431,6 +453,7 @@ func cmdCheck(args []string) {
 				"covers":                   map[string]int{"run": covers, "reachable_or_unknown": coversSat},
 				"known_findings":           knownHit,
 				"bounded":                  pc.Bounded,
+				"assumed_unproved":         capList(assumedUnproved, 40),
 				"instances":                cfbInstancesInfo(cfbRes, *tier),
 				"explanation":              pc.Explanation,
 				"arith":                    "arith int: mathematical Int with explicit mod 2^w wrap for 8/16/32-bit types",
@@ -447,6 +470,14 @@ func cmdCheck(args []string) {
 	fmt.Printf("property=%s tier=%s obligations=%d discharged=%d known=%d violations=%d wall=%.1fs\n",
 		*prop, *tier, total, discharged, len(knownHit), violations, time.Since(t0).Seconds())
 	os.Exit(exit)
+}
+
+// capList: at most n entries plus a count of the rest.
+func capList(l []string, n int) []string {
+	if len(l) <= n {
+		return l
+	}
+	return append(append([]string{}, l[:n]...), fmt.Sprintf("... and %d more", len(l)-n))
 }
 
 func isLocalKey(env *Env, k string) bool {
